@@ -196,16 +196,7 @@ theorem ctfTRu_correct_partial (target : MG Name) (ds : List Domain) (e : Event)
         ∀ (F : FscmFamily) (graphs : Option Name → MG Name), F.CompatibleWith target graphs (declsOf ds) →
         ∀ (ν : BaseValues), ν.Distinct → ∀ (σ σ' : Val), (∀ x, σ x < F.card x) → EventReading ν σ ev →
           den (F.env graphs) σ' x σ = probEventOpt F.target ν e)) := by
-  have hcls : CrashClassU e = false := by
-    have : Reflexive e = false := by
-      unfold Reflexive
-      rw [List.any_eq_false]
-      intro p hp
-      have := hrefl p hp
-      unfold selfIntervened at this
-      simpa using this
-    simp [CrashClassU, this]
-  rcases ctfTRu_answers_or_fails target ds e hv hwf hdecl.wf hcls hplain hdom with ⟨⟨x, oev⟩, ha⟩ | hf
+  rcases ctfTRu_answers_or_fails target ds e hv hwf hdecl.wf hplain hdom with ⟨⟨x, oev⟩, ha⟩ | hf
   · cases oev with
     | none =>
       refine Or.inr (Or.inl ?_)
@@ -233,8 +224,9 @@ theorem dstar_plain (target : MG Name) (ds : List Domain) (o c : Event) (hv : va
     rcases List.mem_append.1 hp with h | h
     · exact List.mem_append_right _ h
     · exact List.mem_append_left _ h
-  obtain ⟨D, dstar', dNames', _, h2', hDn, hfacts⟩ := line2C_ok target hwf o c
+  obtain ⟨lk, D, dstar', dNames', _, hrel, _, _, h2', hDn, hfacts⟩ := line2C_ok target hwf o c
     (fun p hp => hok p (List.mem_append_left _ hp)) (fun p hp => hok p (List.mem_append_right _ hp))
+    (fun p hp => (hplain p (List.mem_append_left _ hp)).1)
   rw [h2] at h2'
   simp only [Except.ok.injEq, Prod.mk.injEq] at h2'
   obtain ⟨rfl, rfl⟩ := h2'
@@ -255,7 +247,10 @@ theorem dstar_plain (target : MG Name) (ds : List Domain) (o c : Event) (hv : va
     rw [hin] at this
     exact hloop _ this
   · intro q hq i hi
-    obtain ⟨p, hp, hpn, hpv, _⟩ := hfacts.value q hq i hi
+    obtain ⟨p', hp', hpn', hpv', _⟩ := hfacts.value q hq i hi
+    obtain ⟨p, hp, hpn0, hpv0⟩ := hrel.of_lk p' hp'
+    have hpn : p.1.name = q.1.name := by rw [← hpn0, hpn']
+    have hpv : p.2 = some i := by rw [← hpv0, hpv']
     have hm : valueMismatch (c ++ o) = false := hvm
     unfold valueMismatch at hm
     simp only [List.any_eq_false] at hm
@@ -367,8 +362,22 @@ theorem ctfTR_sound_partial (target : MG Name) (ds : List Domain) (o c : Event) 
     exact hDval q0 hq0 i (by rw [hval]; exact hi)
   -- the two identities
   have hT := hF.target
+  -- inside the class every outcome is its own lookup key: lines 1-2 are `line2CRaw`
+  have h2raw : line2CRaw target o c = .ok (dstar, dNames) := by
+    obtain ⟨comps, cls⟩ := linkClass_of target o c hclass
+    have hok : ∀ p ∈ o ++ c, VarOK target p.1 := by
+      intro p hp
+      refine ⟨hnodes p ?_, Or.inr ⟨(hplain p hp).2.1, (hplain p hp).1⟩⟩
+      rcases List.mem_append.1 hp with h' | h'
+      · exact List.mem_append_right _ h'
+      · exact List.mem_append_left _ h'
+    have hself := lookup_self target hwf o c comps cls
+      (fun p hp => hok p (List.mem_append_left _ hp)) (fun p hp => hok p (List.mem_append_right _ hp))
+      (fun p hp => (hplain p (List.mem_append_left _ hp)).1)
+    rw [← (line2C_eq_raw target o c hself).1]
+    exact h2
   obtain ⟨cOut, hnum, hden⟩ := ctfTR_link target hwf o c
-    (fun p hp => hnodes p (by rcases List.mem_append.1 hp with h' | h' <;> simp [h'])) hvalued hlinkcls dstar dNames h2
+    (fun p hp => hnodes p (by rcases List.mem_append.1 hp with h' | h' <;> simp [h'])) hvalued hlinkcls dstar dNames h2raw
     F.target hT.compat hT.wf.noise_sum F.card hT.wf.f_range ν σ hσ
   have hc0 : cOut ≠ 0 := by
     intro h0
@@ -405,6 +414,7 @@ in every functional SCM compatible with the target graph, for every reading of t
 theorem ctfTR_zero_sound_partial (target : MG Name) (ds : List Domain) (o c : Event) (x : Expr)
     (h : ctfTR target ds o c = .ok (some (x, none)))
     (hwf : target.WF) (hplain : EventVarsPlain (o ++ c)) (hone : DstarOneWorld target o c = true)
+    (hfound : OutcomesFound target o c = true)
     (M : Fscm.Model) (ν : BaseValues) (hν : ν.Distinct) :
     x = .zero ∧ probEventOpt M ν (o ++ c) = 0 := by
   obtain ⟨hx, dstar, dNames, h2, hs⟩ := ctfTR_zero_only_from_simplify target ds o c x h
@@ -421,8 +431,9 @@ theorem ctfTR_zero_sound_partial (target : MG Name) (ds : List Domain) (o c : Ev
     rcases List.mem_append.1 hp with h' | h'
     · exact List.mem_append_right _ h'
     · exact List.mem_append_left _ h'
-  obtain ⟨D, dstar', dNames', hDv, h2', _, hfacts⟩ := line2C_ok target hwf o c
+  obtain ⟨lk, D, dstar', dNames', _, hrel, hlkD, hDv, h2', _, hfacts⟩ := line2C_ok target hwf o c
     (fun p hp => hok p (List.mem_append_left _ hp)) (fun p hp => hok p (List.mem_append_right _ hp))
+    (fun p hp => (hplain p (List.mem_append_left _ hp)).1)
   rw [h2] at h2'
   simp only [Except.ok.injEq, Prod.mk.injEq] at h2'
   obtain ⟨rfl, rfl⟩ := h2'
@@ -430,6 +441,16 @@ theorem ctfTR_zero_sound_partial (target : MG Name) (ds : List Domain) (o c : Ev
     unfold DstarOneWorld at hone
     rw [hDv] at hone
     simpa using hone
+  -- every outcome is its own lookup key: both are variables of the one-world `D_*` over the same vertex
+  have hlkeq : lk = o := by
+    apply forall₂_eq_of hrel
+    intro p hp p' hp' ⟨hn, hv'⟩
+    have hpD : p.1 ∈ D := by
+      unfold OutcomesFound at hfound
+      rw [hDv] at hfound
+      exact (mem'_iff _ _).1 (List.all_eq_true.1 hfound p hp)
+    exact Prod.ext (List.inj_on_of_nodup_map hDnd (hlkD p' hp') hpD hn) hv'
+  rw [hlkeq] at hfacts
   obtain ⟨_, hDrefl, _, _, _⟩ := dstar_plain target ds o c hv hwf hplain dstar dNames h2
   -- two entries of `D_*` that minimise to the same variable carry different values
   have hconf : ∃ w i j, i ≠ j ∧ (w, some i) ∈ o ∧ (w, some j) ∈ o := by
@@ -506,21 +527,21 @@ theorem popsPlain_of_declared (ds : List Domain) (hdecl : DomainsDeclared ds) : 
 
 /-- **C09 for Algorithm 3, the three clauses together.**  For a conditional query accepted by the validator, built by the
 public wrapper, on graphs built by `from_edges` with domains as declared and selection diagrams that agree with the target
-graph, in which every outcome is found in the ancestral components under its own name (`OutcomesFound`, the ONLY crash
-class of Algorithm 3 for declared domains): `ctfTR` raises no error, and its result is
+graph — NO class of queries excluded for the first clause (after `fix:` f335599, `ctfTR_no_internal_error`): `ctfTR` raises
+no error, and its result is
 * FAIL, or
-* `Zero()` without an event — and then, if `D_*` names every vertex in one world, `outcomes ∧ conditions` has probability
-  0 in every functional SCM, or
+* `Zero()` without an event — and then, if every outcome is given in the minimal form the components store
+  (`OutcomesFound`) and `D_*` names every vertex in one world, `outcomes ∧ conditions` has probability 0 in every
+  functional SCM, or
 * an expression `x` with an event — and then, if the query is in the decidable class `ctfTRSoundClass`, `x` evaluated on
   the declared domain distributions of ANY compatible family in which the conditions have positive probability, at ANY
   valuation carrying the query's values and literal subscripts, is `P*(outcomes ∧ conditions) / P*(conditions)`. -/
 theorem ctfTR_correct_partial (target : MG Name) (ds : List Domain) (o c : Event)
     (hv : validateC target ds o c = .ok ()) (hwf : target.WF) (hdecl : DomainsDeclared ds)
-    (hplain : EventVarsPlain (o ++ c)) (hdom : DomainsAgree target ds)
-    (hfound : OutcomesFound target o c = true) :
+    (hplain : EventVarsPlain (o ++ c)) (hdom : DomainsAgree target ds) :
     ctfTR target ds o c = .ok none ∨
     (ctfTR target ds o c = .ok (some (.zero, none)) ∧
-      (DstarOneWorld target o c = true →
+      (OutcomesFound target o c = true → DstarOneWorld target o c = true →
         ∀ (M : Fscm.Model) (ν : BaseValues), ν.Distinct → probEventOpt M ν (o ++ c) = 0)) ∨
     (∃ x rev, ctfTR target ds o c = .ok (some (x, some rev)) ∧
       (ctfTRSoundClass target o c = true →
@@ -528,14 +549,14 @@ theorem ctfTR_correct_partial (target : MG Name) (ds : List Domain) (o c : Event
         ∀ (ν : BaseValues) (σ σ' : Val), (∀ x, σ x < F.card x) → EventReading ν σ (o ++ c) →
           probEventOpt F.target ν c ≠ 0 →
           den (F.env graphs) σ' x σ = probEventOpt F.target ν (o ++ c) / probEventOpt F.target ν c)) := by
-  rcases ctfTR_answers_or_fails_plain target ds o c hv hwf hdecl.wf hdom hplain hfound
+  rcases ctfTR_answers_or_fails target ds o c hv hwf hdecl.wf hdom hplain
       (popsPlain_of_declared ds hdecl) with ⟨⟨x, oev⟩, ha⟩ | hf
   · cases oev with
     | none =>
       refine Or.inr (Or.inl ?_)
       have hx := (ctfTR_zero_only_from_simplify target ds o c x ha).1
-      refine ⟨by rw [ha, hx], fun hone M ν hν => ?_⟩
-      exact (ctfTR_zero_sound_partial target ds o c x ha hwf hplain hone M ν hν).2
+      refine ⟨by rw [ha, hx], fun hfound hone M ν hν => ?_⟩
+      exact (ctfTR_zero_sound_partial target ds o c x ha hwf hplain hone hfound M ν hν).2
     | some rev =>
       refine Or.inr (Or.inr ⟨x, rev, ha, fun hclass F graphs hF ν σ σ' hσr hσ hpos => ?_⟩)
       exact ctfTR_sound_partial target ds o c x rev ha hwf hdecl hplain hclass F graphs hF ν σ σ' hσr hσ hpos
@@ -555,8 +576,7 @@ theorem ctfTR_correct_partial (target : MG Name) (ds : List Domain) (o c : Event
 --       den (F.env graphs) σ' x σ = probEventOpt F.target ν (outcomes ++ conditions) / probEventOpt F.target ν conditions
 --   PROVED inside the decidable class `ctfTRSoundClass` (`ctfTR_sound_partial`; both identities of `ctfTR_sound_of_parts`
 --   are discharged by `ctfTR_link`).  Outside the class:
---   * FALSE of the current code on the inputs of the open findings cond:value:outcome-lookup-miss / outcome-also-condition
---     (an outcome is dropped from `D_*`: `OutcomesFound = false`), cond:value:two_values (no reading exists),
+--   * FALSE of the current code on the inputs of the open findings cond:value:two_values (no reading exists),
 --     cond:value:multi_world (a vertex in two worlds: the class asks for ONE world across all ancestral components),
 --     cond:value:literal_bound (a literal subscript naming a summed vertex);
 --   * NOT DECIDED where the class is stricter than the code needs (quick stream, seed 0: 1322 answered conditional cases
@@ -565,7 +585,14 @@ theorem ctfTR_correct_partial (target : MG Name) (ds : List Domain) (o c : Event
 --     e.g. the subscript names an OUTCOME with the same value, `P(Y_x = y, X = x | Z = z)` — the denominator's sum over `X`
 --     also moves the subscript, harmless by composition — or sits on a condition whose component holds no outcome), a vertex
 --     in two worlds on which the vertex-wise bookkeeping happens to be right, e.g. `P(Y_x = y | X = x, Y = y)` (15, all
---     accepted), an outcome not found under its own name that is dropped without changing the value (27, 15 accepted).
+--     accepted), and — since repo f335599 — an outcome that is not given in minimal form (`OutcomesFound = false`: a
+--     causally irrelevant subscript; the code now looks it up under `‖Y_x‖` of the cut graph, the former findings
+--     cond:value:outcome-lookup-miss / outcome-also-condition are fixed and the exact oracle accepts these answers, but the
+--     theorem is proved for queries whose outcomes are their own lookup keys, `lookup_self`).
+--   The ZERO clause (`ctfTR_zero_sound_partial`) now needs `OutcomesFound` next to `DstarOneWorld`: two outcomes `Y_x`, `Y`
+--   whose lookup keys coincide (X → Z → Y, condition `Z_x`: the key of `Y_x` is `Y`) with different values make SIMPLIFY
+--   answer Zero although `P(Y_x = y, Y = y' | Z_x = z) > 0` (the condition is in another world; harness class
+--   cond:zero:multi_world).
 --     The cases without a reading (a name with two value symbols: finding cond:value:two_values) are outside every reading
 --     of "the returned event's values".
 
